@@ -240,6 +240,15 @@ func exprString(e ast.Expr) string {
 		return "(" + exprString(x.X) + ")"
 	case *ast.IndexExpr:
 		return exprString(x.X) + "[" + exprString(x.Index) + "]"
+	case *ast.SliceExpr:
+		lo, hi := "", ""
+		if x.Low != nil {
+			lo = exprString(x.Low)
+		}
+		if x.High != nil {
+			hi = exprString(x.High)
+		}
+		return exprString(x.X) + "[" + lo + ":" + hi + "]"
 	case *ast.CompositeLit:
 		el := []string{}
 		for _, a := range x.Elts {
